@@ -399,10 +399,13 @@ def _gen_rsa(r, tier, f, focus):
   # optional fault episode at the very start (first registry fill)
   if fault_budget and r.random() < 0.45:
     fault_budget = 0
-    ops.append({"op": "seam_fault",
-                "kind": r.choice(["open_oserror", "open_oserror",
-                                  "open_torn"]),
-                "k": r.randrange(0, 4)})
+    if r.random() < 0.4:
+      ops.append(call_fail_op(r, "rsa"))
+    else:
+      ops.append({"op": "seam_fault",
+                  "kind": r.choice(["open_oserror", "open_oserror",
+                                    "open_torn"]),
+                  "k": r.randrange(0, 4)})
     add_check()
     if r.random() < 0.3:
       add_check()
@@ -480,11 +483,54 @@ def _gen_rsa(r, tier, f, focus):
           "ops": ops, "timeout": 900.0}
 
 
+L = "paranoid_crypto.lib."
+CALL_FAIL_MODULES = {
+    "rsa": [L + m for m in ("paranoid", "rsa_single_checks",
+                            "rsa_aggregate_checks", "rsa_util", "ntheory_util",
+                            "special_case_factoring", "roca", "util",
+                            "base_check", "lll", "keypair_generator",
+                            "resources", "data.default_storage")],
+    "ec": [L + m for m in ("paranoid", "ec_single_checks",
+                           "ec_aggregate_checks", "ec_util", "util",
+                           "base_check")],
+    "ecdsa": [L + m for m in ("paranoid", "ecdsa_sig_checks",
+                              "hidden_number_problem", "cr50_u2f_weakness",
+                              "lll", "ec_util", "ec_single_checks",
+                              "ec_aggregate_checks", "util", "base_check")],
+}
+
+
+def call_fail_op(r, kind):
+  """MemoryError at the k-th function entry (log-uniform k) inside the
+  library modules of this artifact kind."""
+  k = int(2 ** (r.random() * 11)) - 1
+  mods = CALL_FAIL_MODULES[kind]
+  if r.random() < 0.4:
+    mods = r.sample(mods, r.randint(1, 3))
+  return {"op": "seam_fault", "kind": "call_fail", "modules": mods, "k": k}
+
+
 def _rsa_fault_episode(r, n):
   """fault, faulted call, heal, retry: either a storage call that fails in
   the middle of a batch (some artifacts already annotated), or a resource
   open that fails / is torn inside a check constructor."""
   ops = []
+  u = r.random()
+  if u < 0.45:
+    # allocation failure at an arbitrary function entry of the library during
+    # an ordinary call; heal; the same call again and whatever follows
+    batch = sub_batch(r, n, 1, 5)
+    if r.random() < 0.5:
+      call = {"op": "check_all", "batch": batch, "log_level": 0, "oracle": []}
+    else:
+      nm = r.choice(RSA_SINGLES + RSA_AGGREGATES)
+      call = {"op": "check", "batch": batch, "oracle": [], "c07": True,
+              "check": {"name": nm, "how": "registry", "via": "all"}}
+    ops.append(call_fail_op(r, "rsa"))
+    ops.append(dict(call))
+    ops.append({"op": "heal"})
+    ops.append(dict(call, oracle=[{"relation": "same", "order": list(batch)}]))
+    return ops
   u = r.random()
   if u < 0.2:
     # the Storage extension point fails while a check object is constructed
@@ -681,6 +727,23 @@ def directed_plans(prop, profile):
                 {"op": "heal"},
                 {"op": "check_all", "batch": [0, 1], "log_level": 1,
                  "oracle": [{"relation": "same", "order": [0, 1]}]}],
+        "timeout": 300.0}))
+  if profile == "rsa" and prop in ("C16", "C17"):
+    # F11: allocation failure while the aggregate checks are constructed,
+    # after the single checks were already built
+    r = random.Random(5)
+    pool = [A.rsa_healthy(r), A.rsa_short(r, 1024)]
+    out.append(("directed-registry-fault-aggregates", {
+        "engine": "A", "kind": "rsa", "profile": "rsa", "focus": prop,
+        "knobs": {"clock_seed": 3, "denylist": _empty_deny()},
+        "pool": pool, "initial_annotations": {},
+        "ops": [{"op": "seam_fault", "kind": "call_fail", "k": 0,
+                 "modules": ["paranoid_crypto.lib.rsa_aggregate_checks"]},
+                {"op": "check_all", "batch": [0, 1], "log_level": 0,
+                 "oracle": []},
+                {"op": "heal"},
+                {"op": "check_all", "batch": [0, 1], "log_level": 0,
+                 "oracle": []}],
         "timeout": 300.0}))
   if profile in ("ec", "ecdsa"):
     from dst import engine_a_gen_ec as E
